@@ -15,7 +15,7 @@ CHECKS = {
  "C07": ("exploration", "A", "runtime monitoring: causal provenance of steps inside promised max_advance windows",
          "Every step in a promised window must be caused (transitively) by the simulator's own steps at or after the promise.", "3/C07"),
  "C04": ("exploration", "A", "runtime monitoring: differential oracle over per-simulator (time, inputs) sequences of many runs of one scenario (schedules incl. bounded-exhaustive DFS, start order, lazy/cache/debug, remote processes)",
-         "No model: any difference between two runs of one scenario is a violation. One open known finding (sub-time data path) classified per differing step; flat scenarios cannot reach it and amplify any difference.", "3/C04"),
+         "No model: any difference between two runs of one scenario (sequences, or a run failing where the reference completes) is a violation. One open known finding (sub-time data path) classified per differing step; flat scenarios cannot reach it and amplify any difference.", "3/C04"),
  "C06": ("exploration", "C", "runtime monitoring: contract on World.run() (ScenarioError vs. first step, named cycle) against a brute-force cycle enumerator",
          "All connection multigraphs on 1-2 simulators x 5 group placements exhaustively, 3 simulators exhaustively in the thorough tier, 4-6 sampled.", "5/C06"),
  "C08": ("exploration", "C", "runtime contracts on the real TieredInterval/TieredTime operators against a functional model, exhaustive over bounded shapes",
@@ -31,11 +31,11 @@ CHECKS = {
  "C13": ("fault_enumeration", "A", "runtime monitoring with fault injection: every malformed reply value x step index x simulator position; expected rejection naming the simulator",
          "Enumerates (simulator, step index, malformed value) over generated scenarios; checks error text, no further request to the offender, consistent step set of everybody.", "3/C13"),
  "C14": ("fault_enumeration", "B", "runtime monitoring with fault injection over real simulator processes: every request index x {process exit, exception, connection abort}; containment checklist (processes, finalize counts, pending tasks at loop.close(), ResourceWarnings)",
-         "Enumerates every (simulator, request index, kind) of a small catalogue with remote/in-process mixes; hangs judged only if reproduced twice.", "4/C14"),
+         "Enumerates every (simulator, request index, kind) of a small catalogue with remote/in-process mixes, old-API simulators and an in-flight asynchronous request; 'stop' observed on the wire; hangs judged only if reproduced twice.", "4/C14"),
  "C15": ("exploration", "B", "runtime monitoring: requests recorded by stub simulators (in-process v1/v2/v3 signatures, raw-socket process) against the version table; differential 2.x vs 3.0",
-         "All version strings x explicit api_version x transport x type present/absent.", "4/C15"),
+         "All version strings x explicit api_version x transport x type present/absent; failing old simulators, same-named classes, extra methods, repeated starts from one entry.", "4/C15"),
  "C16": ("exploration", "A", "runtime monitoring: exactly-once history check of set_data values with unique ids; ordering oracle; refusal of unauthorised requests",
-         "Generated agent scenarios (ratios, 1-3 agents, sparse writes) under controlled schedules.", "3/C16"),
+         "Generated agent scenarios (ratios, 1-3 agents, sparse writes, groups, sub-steps, debug mode) under controlled schedules plus a sample over real processes.", "3/C16"),
  "C17": ("exploration", "A", "runtime monitoring on a virtual clock: pacing arithmetic, too-slow reports, rt_strict differential, injected set_event",
          "Virtual clock makes timing deterministic; dyadic factors. One open known finding (consumers one slot late and reported too slow).", "3/C17"),
  "C10": ("exploration", "A", "runtime monitoring: ordering oracle (producer begin vs. consumers' outstanding steps), lazy_stepping=True",
